@@ -1,6 +1,6 @@
 #!/usr/bin/env python3
 """Regenerates /verif/MANIFEST.json from the table below (single source of truth for the interface)."""
-import json
+import json, sys
 import os
 import subprocess
 
@@ -160,6 +160,11 @@ def main():
             "level_note": note,
             "technique": tech,
         })
+    # the registry of checks must implement exactly the claimed properties
+    sys.path.insert(0, os.path.dirname(os.path.abspath(__file__)))
+    import registry
+    if set(registry.PROPS.keys()) != claimed:
+        raise SystemExit(f"registry / manifest mismatch: only in registry {set(registry.PROPS) - claimed}, only claimed {claimed - set(registry.PROPS)}")
     na = []
     for p in props:
         if p in claimed:
